@@ -111,9 +111,9 @@ fn bad_scalar_encodings<G: CurveTag>(orig: &[u8]) -> Vec<(String, Vec<u8>)> {
 fn proof_case<G: CurveTag>(bytes: &[u8], col: &mut Collector, prefixes: bool) -> Result<(), Failure> {
     let mut ch = Choices::new(bytes);
     let cfg = if prefixes {
-        GenCfg { max_ops1: 10, max_closures: 2, max_ops2: 6, max_commits: 2, big_gates: 20 , max_terms: 4, wide: false}
+        GenCfg { max_ops1: 10, max_closures: 2, max_ops2: 6, max_commits: 2, big_gates: 20, max_terms: 4, wide: false }
     } else if ch.chance(40) {
-        GenCfg { max_ops1: 12, max_closures: 2, max_ops2: 8, max_commits: 3, big_gates: 130 , max_terms: 4, wide: false}
+        GenCfg { max_ops1: 12, max_closures: 2, max_ops2: 8, max_commits: 3, big_gates: 130, max_terms: 4, wide: false }
     } else {
         GenCfg::small()
     };
